@@ -6,7 +6,12 @@ package core
 
 // R is a splitmix64 stream. A case is a pure function of (seed, property,
 // case index, tier) through such a stream, so every case can be re-run alone.
-type R struct{ s uint64 }
+type R struct {
+	s uint64
+	// Last is scratch for generators that want consecutive draws to be related
+	// (the previous index); per stream, hence per case.
+	Last int
+}
 
 func NewR(seed uint64) *R { return &R{s: seed} }
 
